@@ -78,13 +78,7 @@ def build_space(tier):
 
 
 def msg_values(st):
-    vals = shapes.struct_values(st, special_floats=False, limit=64)
-    out = []
-    for v in vals:
-        if any(isinstance(x, float) and x == 0 and str(x) == "-0.0" for x in v.values()):
-            continue
-        out.append(v)
-    return out
+    return shapes.struct_values(st, special_floats=False, limit=64)
 
 
 def shape_class(combo):
@@ -226,7 +220,7 @@ def make_worker(tier):
 
 def _num_same(a, b):
     if isinstance(b, float):
-        return isinstance(a, float) and (a == b)
+        return isinstance(a, float) and refcodec.same(a, b)  # bit for bit: -0.0 is not +0.0
     return a == b
 
 
